@@ -15,14 +15,24 @@ import (
 // it because they take the curve from the key.
 type zzGroup struct {
 	params *elliptic.CurveParams
+	// coordinate bases (2^24 by default; zzNewGroupShape gives x and y different byte lengths,
+	// e.g. a 32-byte x next to a 4-byte y, so that per-coordinate padding is told apart)
+	xBase, yBase *big.Int
 }
 
 const zzMask = 0x5555
 const zzBase = 1 << 24
 
-func zzNewGroup(q int64) *zzGroup {
-	return &zzGroup{params: &elliptic.CurveParams{N: big.NewInt(q), P: big.NewInt(q), B: big.NewInt(0),
-		Gx: big.NewInt(zzBase + 1), Gy: big.NewInt(zzBase + (1 ^ zzMask)), BitSize: 17, Name: "zzGroup"}}
+func zzNewGroup(q int64) *zzGroup { return zzNewGroupShape(q, 4, 4) }
+
+// zzNewGroupShape: coordinates with exactly xBytes resp. yBytes significant bytes.
+func zzNewGroupShape(q int64, xBytes, yBytes int) *zzGroup {
+	xb := new(big.Int).Lsh(big.NewInt(1), uint(8*(xBytes-1)))
+	yb := new(big.Int).Lsh(big.NewInt(1), uint(8*(yBytes-1)))
+	g := &zzGroup{xBase: xb, yBase: yb}
+	gx, gy := g.point(1)
+	g.params = &elliptic.CurveParams{N: big.NewInt(q), P: big.NewInt(q), B: big.NewInt(0), Gx: gx, Gy: gy, BitSize: 17, Name: "zzGroup"}
+	return g
 }
 
 func (g *zzGroup) Params() *elliptic.CurveParams { return g.params }
@@ -31,18 +41,19 @@ func (g *zzGroup) q() int64 { return g.params.N.Int64() }
 
 // dlog maps a point to its discrete log; ok is false for pairs that are not points.
 func (g *zzGroup) dlog(x, y *big.Int) (int64, bool) {
-	if !x.IsInt64() || !y.IsInt64() {
-		return 0, false
-	}
-	xv, yv := x.Int64(), y.Int64()
 	if x.Sign() < 0 || y.Sign() < 0 {
 		return 0, false
 	}
-	if xv == 0 && yv == 0 {
+	if x.Sign() == 0 && y.Sign() == 0 {
 		return 0, true
 	}
-	if xv > zzBase && xv < zzBase+g.q() && yv == zzBase+((xv-zzBase)^zzMask) {
-		return xv - zzBase, true
+	xd, yd := new(big.Int).Sub(x, g.xBase), new(big.Int).Sub(y, g.yBase)
+	if xd.Sign() <= 0 || yd.Sign() < 0 || !xd.IsInt64() || !yd.IsInt64() {
+		return 0, false
+	}
+	xv, yv := xd.Int64(), yd.Int64()
+	if xv < g.q() && yv == xv^zzMask {
+		return xv, true
 	}
 	return 0, false
 }
@@ -51,7 +62,7 @@ func (g *zzGroup) point(d int64) (*big.Int, *big.Int) {
 	if d == 0 {
 		return new(big.Int), new(big.Int)
 	}
-	return big.NewInt(zzBase + d), big.NewInt(zzBase + (d ^ zzMask))
+	return new(big.Int).Add(g.xBase, big.NewInt(d)), new(big.Int).Add(g.yBase, big.NewInt(d^zzMask))
 }
 
 func (g *zzGroup) IsOnCurve(x, y *big.Int) bool {
